@@ -12,6 +12,9 @@ claimed={
  "C13":(E2,"Generated element types x lists/maps with duplicates; permutation, sortedness under derived Compare, exactly-once keys, membership and extremality of min/max. Exploration only.","trusts vref; order = derived Compare (judged by C03)","property-based testing (rapid): validity predicates (permutation, sortedness, extremality) over generated lists"),
  "C14":(E2,"Generated element types x lists with Equal-but-not-identical duplicates x logging predicates, against a list/set reference model under derived Equal. Exploration only.","trusts vref; derived Equal cross-checked with the structural reference per pair","property-based testing (rapid): reference list/set model + predicate call-log invariants"),
  "C17":(E2,"Scripted logging f over generated slices and strings (multi-byte, invalid UTF-8), slices of slices with nil/empty inner lists; compared with map over elements / []rune and concatenation. Exploration only.","trusts vref encoder","property-based testing (rapid): reference map/concat model with call logs"),
+ "C15":(E2,"Generated signatures (arity, naming modes incl. unnamed / blank / f) x arguments through an instrumented f: one call, positions by identity, results unchanged, Uncurry(Curry(f)) = f, Tuple. Exploration only.","trusts reflect.MakeFunc stubs","property-based testing (rapid): instrumented-stub call-log oracle over generated signatures"),
+ "C16":(E2,"Generated chains / error forms x failing position x result types: call log, error identity, zero values, pass-through. Exploration only.","trusts reflect.MakeFunc stubs","property-based testing (rapid): fault-position enumeration by generator + call-log / reference composition oracle"),
+ "C18":(E2,"Generated signatures x call sequences (identical, Equal-not-identical, hash-colliding repeats) against a per-class result table and call counter. Exploration only.","f deterministic per canonical class by construction","property-based testing (rapid): model-based call sequences (memo table model)"),
 }
 checks=[]
 for pid,(eng,text,note,tech) in claimed.items():
